@@ -53,6 +53,18 @@ CHECKS.update({
         "Trusted: the cell oracle (40 lines). 'Non-overlapping' is read as no negative gap between consecutive events.",
         "DESIGN.md 3.4, 4 C10",
     ),
+    "C09": (
+        "bounded-exhaustive enumeration of pairs of interval lists on a time lattice, integer interval oracle",
+        "filter_period_intersect is run on the full product of internally non-overlapping lists of <=3 lattice events (zero-length events anywhere, duplicates, sorted and reversed input) and compared as a multiset of (piece, data, id) with max/min arithmetic, inputs compared before/after; period_union on every multiset of <=4 arbitrary events x splits x orders, compared as closed-interval point sets on a half-unit grid with sortedness and strictly positive gaps.",
+        "Trusted: the interval oracle; timeslot library is exercised as part of the implementation. Lists longer than the bound are not explored.",
+        "DESIGN.md 3.4, 4 C09",
+    ),
+    "C15": (
+        "bounded-exhaustive enumeration of pairs of sorted non-overlapping interval lists, unit-cell oracle",
+        "union_no_overlap is run on the full product of sorted, internally non-overlapping lists of <=3 lattice events on 0..5 (zero-length events, shared edges, containment both ways, one spanning many); list one must come back unchanged and in order, each list-two event's pieces must cover exactly its cells outside list one, no two outputs overlap, inputs untouched.",
+        "Trusted: the cell oracle. Zero-length list-two events may or may not be returned.",
+        "DESIGN.md 3.4, 4 C15",
+    ),
 })
 
 NOT_YET = {}
